@@ -5,7 +5,7 @@ import os
 
 VERIF = os.path.dirname(os.path.dirname(os.path.abspath(__file__)))
 
-COMMON_NOTE = ("Trusted: Coq 8.16.1 kernel (no axioms; Print Assumptions gate on every run), gen_consts.py translator, extraction with "
+COMMON_NOTE = ("Trusted: Coq 8.16.1 kernel (no axioms; Print Assumptions gate on every run), gen_consts.py (constants) and gen_logic.py (source translator, fail-closed; its output is proved equal to the model in Proofs/GenEquiv.v, GenSkel.v, GenService.v on every run), extraction with "
                "ExtrOcamlBasic + runner/driver.ml, the correspondence harness and CPython. The theorems are about the hand-written Gallina "
                "model; that the model is the code is established by differential testing on every run (coverage in the evidence), not proved.")
 
